@@ -2,10 +2,10 @@
 
 import os
 
-_COMMON = {"internal/zzverif/c18/c18.go": "c18/common/c18.go"}
+_COMMON = {"internal/zzverif/c18/c18.go": "c18/common/c18.go", "internal/zzverif/c18/fs.go": "c18/common/fs.go"}
 # which candidate repairs the tree under test carries (fixes/C18-F1.diff, fixes/C18-F2.diff): flipped here once the
 # coordinator has applied them; VERIF_C18_FIXED=F1,F2 overrides for trying a fix in a scratch worktree
-_FIXED = os.environ.get("VERIF_C18_FIXED", "")
+_FIXED = os.environ.get("VERIF_C18_FIXED", "F1,F2")   # 9cefff4 (C18-F1), 07a625c (C18-F2, C18-F4) are in /repo
 _B = lambda f: "true" if f in _FIXED.split(",") else "false"
 
 P = {
@@ -15,31 +15,40 @@ P = {
     "theorems_module": "Properties.C18",
     "theorems": ["C18_converges", "C18_exactly_once", "C18_unchanged_no_reload", "C18_removed_unloaded",
                  "C18_invalid_keeps_previous", "C18_frame",
-                 "C18_fs_all_histories", "C18_fs_stored_hash", "C18_http_all_histories", "C18_http_stored_hash",
-                 "C18_fs_active_is_stored_hash", "C18_http_active_is_stored_hash", "C18_fs_converges_world",
-                 "C18_fs_F2_refuted", "C18_fs_F4_refuted", "C18_fs_nonvacuous",
-                 "C18_blob_all_histories", "C18_blob_stored_hash", "C18_blob_F1_refuted", "C18_blob_F5_refuted",
-                 "C18_blob_F6_refuted", "C18_k8s_all_histories", "C18_k8s_converges"],
+                 "C18_fs_all_histories", "C18_fs_all_histories_pinned", "C18_fs_stored_hash",
+                 "C18_http_all_histories", "C18_http_stored_hash",
+                 "C18_fs_active_is_stored_hash", "C18_http_active_is_stored_hash",
+                 "C18_fs_converges_world", "C18_fs_converges_world_pinned",
+                 "C18_fs_F2_pinned_refuted", "C18_fs_F4_pinned_refuted", "C18_fs_nonvacuous",
+                 "C18_blob_all_histories", "C18_blob_all_histories_pinned", "C18_blob_stored_hash",
+                 "C18_blob_F1_pinned_refuted", "C18_blob_F5_refuted", "C18_blob_F6_refuted",
+                 "C18_k8s_all_histories", "C18_k8s_converges"],
     "streams": [{
         "name": "fs", "pkg": "./internal/rules/provider/filesystem", "test": "TestVerifC18Fs",
         "overlay": dict(_COMMON, **{"internal/rules/provider/filesystem/zz_verif_c18_test.go": "c18/fs_test.go"}),
         "eval_module": "Run.Eval_C18", "check_term": "check_fs " + _B("F2"),
-        "n_quick": 500, "n_thorough": 20000, "findings": {2: "C18-F2", 4: "C18-F4"},
+        "n_quick": 500, "n_thorough": 8000, "findings": {},
+    }, {
+        "name": "fsreal", "pkg": "./internal/rules", "test": "TestVerifC18Real",
+        "overlay": dict(_COMMON, **{"internal/rules/zz_verif_c18_test.go": "c18/real_test.go",
+                                    "internal/rules/provider/filesystem/zz_verif_c18_export.go": "c18/fs_export.go"}),
+        "eval_module": "Run.Eval_C18", "check_term": "check_fsr " + _B("F2"),
+        "n_quick": 300, "n_thorough": 4000, "findings": {},
     }, {
         "name": "http", "pkg": "./internal/rules/provider/httpendpoint", "test": "TestVerifC18HTTP",
         "overlay": dict(_COMMON, **{"internal/rules/provider/httpendpoint/zz_verif_c18_test.go": "c18/http_test.go"}),
         "eval_module": "Run.Eval_C18", "check_term": "check_http",
-        "n_quick": 400, "n_thorough": 15000, "findings": {},
+        "n_quick": 400, "n_thorough": 6000, "findings": {},
     }, {
         "name": "blob", "pkg": "./internal/rules/provider/cloudblob", "test": "TestVerifC18Blob",
         "overlay": dict(_COMMON, **{"internal/rules/provider/cloudblob/zz_verif_c18_test.go": "c18/blob_test.go"}),
         "eval_module": "Run.Eval_C18", "check_term": "check_blob " + _B("F1"),
-        "n_quick": 400, "n_thorough": 15000, "findings": {1: "C18-F1", 5: "C18-F5", 6: "C18-F6"},
+        "n_quick": 400, "n_thorough": 6000, "findings": {5: "C18-F5", 6: "C18-F6"},
     }, {
         "name": "k8s", "pkg": "./internal/rules/provider/kubernetes", "test": "TestVerifC18K8s",
         "overlay": dict(_COMMON, **{"internal/rules/provider/kubernetes/zz_verif_c18_test.go": "c18/k8s_test.go"}),
         "eval_module": "Run.Eval_C18", "check_term": "check_k8s",
-        "n_quick": 300, "n_thorough": 10000, "findings": {},
+        "n_quick": 300, "n_thorough": 4000, "findings": {},
     }],
     "rule": "per provider, generated histories of 1-30 events over 1-3 sources (file system: file changes valid/absent/empty/"
             "invalid with 5 empty and 11 invalid byte variants, fsnotify events of every kind incl. combined op bits, orderly and "
